@@ -175,6 +175,13 @@ func makeOpaque3(c *hlib.Ctx, name string) model3d.Solid {
 			n := rndDir3(c)
 			p = append(p, &model3d.LinearConstraint{Normal: n, Max: n.Dot(mid) + c.Rng.Float64()*n.Norm()})
 		}
+		if c.Rng.Intn(2) == 0 {
+			// un-normalised constraints: the same half-spaces with normals of length 2^k, k in [-60, 60]
+			for _, l := range p {
+				f := math.Ldexp(1, c.Rng.Intn(121)-60)
+				l.Normal, l.Max = l.Normal.Scale(f), l.Max*f
+			}
+		}
 		return p.Solid()
 	case "meshSolid":
 		m := model3d.NewMeshIcosphere(p1, r, 2)
@@ -232,6 +239,12 @@ func makeOpaque2(c *hlib.Ctx, name string) model2d.Solid {
 		for i := 0; i < c.Rng.Intn(3); i++ {
 			n := model2d.XY(c.Rng.NormFloat64(), c.Rng.NormFloat64())
 			p = append(p, &model2d.LinearConstraint{Normal: n, Max: n.Dot(mid) + c.Rng.Float64()*n.Norm()})
+		}
+		if c.Rng.Intn(2) == 0 {
+			for _, l := range p {
+				f := math.Ldexp(1, c.Rng.Intn(121)-60)
+				l.Normal, l.Max = l.Normal.Scale(f), l.Max*f
+			}
 		}
 		return p.Solid()
 	case "meshSolid2":
